@@ -317,6 +317,7 @@ func checkC07(w *World, r *Report) {
 	ruleFillAccounting(w, r, "C07")
 	ruleRowsFit(w, r, "C07")
 	ruleRowsAreLines(w, r, "C07")
+	ruleCellsBounded(w, r, "C07")
 }
 
 // ruleFillAccounting: in bFiller.Fill every appended component advances fillCount by that
@@ -804,4 +805,135 @@ func checkC08(w *World, r *Report) {
 		ruleSetRefill(w, r, "C08", trig, pred, pathOpts{InlineDepth: 3, Inline: noInline(trig, pred)})
 	}
 	ruleStatisticsFaithful(w, r, "C08")
+}
+
+// ruleCellsBounded (C07): in bFiller.Fill every increment of the cell counter is bounded by the
+// space that is left: `counter + a` happens only under `limit - counter >= a`, or (for an
+// increment of the still-zero counter) under `a <= limit`. An unguarded increment lets the body
+// exceed its allotted width.
+func ruleCellsBounded(w *World, r *Report, pfx string) {
+	rule := pfx + ".W-BOUND"
+	fn := w.Func("mpb.(*bFiller).Fill")
+	if fn == nil {
+		r.Unresolved("anchor", "bFiller.Fill", "not found")
+		return
+	}
+	// counter family: values appearing as V in a loop test SUB(L, V) >= a, closed backwards over phis and ADDs
+	family := map[ssa.Value]bool{}
+	var work []ssa.Value
+	for _, b := range fn.Blocks {
+		ifi, ok := b.Instrs[len(b.Instrs)-1].(*ssa.If)
+		if !ok {
+			continue
+		}
+		bin, ok := ifi.Cond.(*ssa.BinOp)
+		if !ok {
+			continue
+		}
+		if sub, ok := bin.X.(*ssa.BinOp); ok && sub.Op == token.SUB && (bin.Op == token.GEQ || bin.Op == token.GTR) {
+			if _, isPhi := sub.Y.(*ssa.Phi); isPhi {
+				work = append(work, sub.Y)
+			}
+		}
+	}
+	var adds []*ssa.BinOp
+	for len(work) > 0 {
+		v := work[len(work)-1]
+		work = work[:len(work)-1]
+		if family[v] {
+			continue
+		}
+		family[v] = true
+		switch x := v.(type) {
+		case *ssa.Phi:
+			for _, e := range x.Edges {
+				work = append(work, e)
+			}
+		case *ssa.BinOp:
+			if x.Op == token.ADD {
+				adds = append(adds, x)
+				work = append(work, x.X, x.Y)
+			}
+		}
+	}
+	if len(adds) == 0 {
+		r.Undecided(rule, "cell counter of bFiller.Fill", w.pos(fn.Pos()), "cell counter not identified")
+		return
+	}
+	isZero := func(v ssa.Value) bool { k, ok := constInt(v); return ok && k == 0 }
+	n := 0
+	for _, add := range adds {
+		// amount = the operand that is not part of the counter family (or not the zero constant)
+		cnt, amt := add.X, add.Y
+		if isZero(add.Y) || (family[add.Y] && !isZero(add.Y) && !family[add.X]) {
+			cnt, amt = add.Y, add.X
+		}
+		if _, isK := constInt(amt); isK && !isZero(cnt) {
+			// constant step: still needs its loop guard
+		}
+		n++
+		guarded := false
+		for _, b := range fn.Blocks {
+			ifi, ok := b.Instrs[len(b.Instrs)-1].(*ssa.If)
+			if !ok {
+				continue
+			}
+			bin, ok := ifi.Cond.(*ssa.BinOp)
+			if !ok {
+				continue
+			}
+			for pol := 0; pol < 2; pol++ {
+				op := bin.Op
+				succ := b.Succs[0]
+				if pol == 1 {
+					op = negOp(op)
+					succ = b.Succs[1]
+				}
+				if !(succ == add.Block() || (succ.Dominates(add.Block()) && len(succ.Preds) == 1)) {
+					continue
+				}
+				x, y := bin.X, bin.Y
+				// limit - counter >= amount
+				if sub, ok := x.(*ssa.BinOp); ok && sub.Op == token.SUB && sub.Y == cnt && sameAmount(w, y, amt) && (op == token.GEQ || op == token.GTR) {
+					guarded = true
+				}
+				if sub, ok := y.(*ssa.BinOp); ok && sub.Op == token.SUB && sub.Y == cnt && sameAmount(w, x, amt) && (op == token.LEQ || op == token.LSS) {
+					guarded = true
+				}
+				// zero counter: amount <= limit
+				if isZero(cnt) {
+					if sameAmount(w, x, amt) && (op == token.LEQ || op == token.LSS) && loopInvariantValue(y) {
+						guarded = true
+					}
+					if sameAmount(w, y, amt) && (op == token.GEQ || op == token.GTR) && loopInvariantValue(x) {
+						guarded = true
+					}
+				}
+			}
+		}
+		r.Check(guarded, rule, fmt.Sprintf("cell counter increment by %s", describeVal(Val{V: amt})), w.instrPos(add), "guarded by the space that is left", "the cell counter is advanced by "+describeVal(Val{V: amt})+" without a guard that this many columns are left: a component wider than the remaining width (e.g. a multi-column tip on a narrow bar) makes the body, and the row, exceed the allotted width")
+	}
+	r.Floor(rule, 4, "tip, filler, refiller, padding, ellipsis increments")
+}
+
+func sameAmount(w *World, a, b ssa.Value) bool {
+	if a == b {
+		return true
+	}
+	fa, ok1 := loadedField(stripConv(a))
+	fb, ok2 := loadedField(stripConv(b))
+	if ok1 && ok2 && fa.Owner == fb.Owner && fa.Name == fb.Name {
+		return fa.Base == fb.Base || w.sameSource(fa.Base, fb.Base)
+	}
+	ka, oka := constInt(a)
+	kb, okb := constInt(b)
+	return oka && okb && ka == kb
+}
+
+func loopInvariantValue(v ssa.Value) bool {
+	switch v.(type) {
+	case *ssa.Const, *ssa.Parameter, *ssa.BinOp, *ssa.Convert, *ssa.UnOp, *ssa.Call, *ssa.Phi:
+		return true
+	}
+	return false
 }
